@@ -17,7 +17,13 @@ RULE = ('The protocol monitor (per endpoint, per stream: SETUP first and once, c
         'runs", handler and publisher failures, lease on/off with requests queued behind a lease, fragmentation, both '
         'roles, requests issued while connect() waits for its transport; (2) the C01 delivery programs; (3) the C05 '
         'multiplexing programs; (4) the C09 cancellation programs; (5) the C17 reconnect histories (every connection of a '
-        'client judged separately: nothing of the previous connection may appear on the next). Reception-dependent rules are judged '
+        'client judged separately: nothing of the previous connection may appear on the next); plus, enumerated: channel '
+        'endgames - every pairing of seven publisher kinds (none, empty, failing at once, generator, failing async '
+        'generator, manual, manual ending in an error) on the two sides x initial credit 1 / max x every sequence of up to '
+        '2 (thorough: 3) actions from {request-n, cancel, emit, end} in both directions; plus streams and channels requested '
+        'through the awaitable client API (AwaitableRSocket / CollectorSubscriber with a limit_rate). Every frame is also '
+        'observed at the moment the endpoint hands it to its send queue: nothing is queued on a request-response or stream '
+        'after its requester received the terminal frame. Reception-dependent rules are judged '
         'at the moment the library decided to emit where the harness can know it (request-response CANCEL: the done '
         'callback of the cancelled future), so frames already queued when a peer frame arrives are never blamed. '
         'Non-trivial = the run contains a cancel or error racing other traffic, or lease, or fragmentation; distinct = '
@@ -136,7 +142,48 @@ def reconnect_programs():
     return c17.cases().map(lambda case: dict(c17.build(case)[0], gen='reconnect'))
 
 
+# ---- the awaitable client API (AwaitableRSocket + CollectorSubscriber with limit_rate) as the requesting application
+
+def awaitable_cases():
+    return st.fixed_dictionaries({'model': st.sampled_from(['st', 'st', 'ch']), 'n': st.integers(0, 9),
+                                  'limit_rate': st.sampled_from([1, 2, 3, 4, 5, gen.MAXN]), 'end': st.sampled_from(['flag', 'sep']),
+                                  'kind': st.sampled_from(['gen', 'agen', 'manual']), 'msg': st.booleans()}).map(lambda c: {'awaitable': c})
+
+
+def awaitable_program(c):
+    from harness import app as A
+    spec = {'k': c['model'], 'side': 'c', 'req': [6, 2], 'src': {'kind': c['kind'], 'els': [[5, 0]] * c['n'], 'end': c['end'], 'awaits': 0},
+            'sub': {'n0': c['limit_rate'], 'refill': 0}}
+    if c['model'] == 'ch':
+        spec['rsrc'] = None
+        spec['rsub'] = {'n0': gen.MAXN, 'refill': 0}
+
+    def go(scn):
+        from rsocket.awaitable.awaitable_rsocket import AwaitableRSocket
+        import asyncio as aio
+        sock = scn.sock['c']
+        d, m = A.payload_bytes(0, A.TAG_REQ, 0, spec['req'])
+        aw = AwaitableRSocket(sock)
+        coro = aw.request_stream(A.mk_payload(d, m), limit_rate=c['limit_rate']) if c['model'] == 'st' else \
+            aw.request_channel(A.mk_payload(d, m), limit_rate=c['limit_rate'])
+        task = aio.ensure_future(coro)
+        task.add_done_callback(lambda t: scn.world.ev('c', 'awaitable_done', n=(len(t.result()) if not t.cancelled() and not t.exception() else -1)))
+        sid = 1  # the coroutine allocates its stream when the task first runs: the first id of a fresh client
+        scn.st[0] = {'spec': spec, 'uid': 0, 'pub': {}, 'libpub': {}, 'sub': {}, 'hfut': None, 'fut': None, 'sid': sid}
+        scn.started.append(0)
+        scn.world.bind('c', sid, 0)
+
+    ops = [['tick', 3], ['call', 'go'], ['tick', 3]]
+    if c['kind'] == 'manual':
+        ops += [['emit', 0, 'resp', 20], ['end', 0, 'resp']]
+    ops += [['tick', 6], ['settle']]
+    return {'gen': 'awaitable', 'cfg': {'msg': c['msg'], 'frag': [None, None], 'rbuf': [1024, 1024]}, 'inter': [spec], 'ops': ops,
+            'heal': False, '_actions': {'go': go}}
+
+
 def prop(program):
+    if 'awaitable' in program:
+        program = awaitable_program(program['awaitable'])
     p = program
     if p.get('gen') == 'c05':
         from harness.checks import c05
@@ -199,6 +246,60 @@ REGRESSION = [
 ]
 
 
+# ---- channel endgames: every pairing of publisher kinds on the two sides, followed by every short sequence of actions
+
+CH_SRC = [None,
+          {'kind': 'gen', 'els': [], 'end': 'flag', 'awaits': 0},
+          {'kind': 'gen', 'els': [], 'end': 'flag', 'awaits': 0, 'err_at': 0},
+          {'kind': 'gen', 'els': [[4, 0], [5, 0]], 'end': 'sep', 'awaits': 0},
+          {'kind': 'agen', 'els': [[4, 0]], 'end': 'sep', 'awaits': 1, 'err_at': 1},
+          {'kind': 'manual', 'els': [[4, 0], [3, 0]], 'end': 'sep'},
+          {'kind': 'manual', 'els': [[4, 0]], 'end': 'error'}]
+CH_ACTS = [['req', 0, 'resp', 1], ['req', 0, 'req', 2], ['cancel', 0, 'resp'], ['cancel', 0, 'req'], ['emit', 0, 'resp', 2],
+           ['emit', 0, 'req', 2], ['end', 0, 'resp'], ['end', 0, 'req'], ['tick', 2]]
+
+
+def endgame_programs(depth):
+    import itertools
+    for side in ('c', 's'):
+        for src, rsrc in itertools.product(CH_SRC, CH_SRC):
+            for n0 in (1, gen.MAXN):
+                for d in range(1, depth + 1):
+                    for acts in itertools.product(range(len(CH_ACTS)), repeat=d):
+                        if n0 == gen.MAXN and d == depth and acts[0] % 2:
+                            continue  # thin out the largest layer
+                        ops = [['start'], ['tick', 3]]
+                        for a in acts:
+                            ops.append(list(CH_ACTS[a]))
+                        ops += [['tick', 3]]
+                        yield {'gen': 'endgame', 'cfg': {'msg': False, 'frag': [None, None], 'rbuf': [1024, 1024]},
+                               'inter': [{'k': 'ch', 'side': side, 'req': [3, 0], 'src': src, 'sub': {'n0': n0, 'refill': 0},
+                                          'rsrc': rsrc, 'rsub': {'n0': n0, 'refill': 0}}], 'ops': ops}
+
+
+def endgame_shard(tier, seed, part, parts):
+    common.use_repo()
+    stats = common.Stats()
+    known = common.Known(PID)
+    depth = 2 if tier == 'quick' else 3
+    n = 0
+    for i, p in enumerate(endgame_programs(depth)):
+        if i % parts != part:
+            continue
+        vs = prop(p)
+        n += 1
+        stats.evaluations += 1
+        if info.get('nt'):
+            stats.nontrivial.add(common.case_hash(p))
+            if len(stats.samples) < 1:
+                stats.samples.append(p)
+        for v in common.judge(stats, known, p, vs):
+            if not any(v['sig'] == vv['sig'] for vv, _ in stats.violations):
+                stats.violations.append((v, p))
+    stats.classes['gen=endgame'] += n
+    return stats
+
+
 def shard(tier, seed, n, which):
     common.use_repo()
     stats = common.Stats()
@@ -223,6 +324,8 @@ def shard(tier, seed, n, which):
         strat = tagged(c09.programs(), 'c09')
     elif which == 'reconnect':
         strat = reconnect_programs()
+    elif which == 'awaitable':
+        strat = awaitable_cases()
     common.hyp_search(stats, known, strat, prop, n, seed, classify=classify, shrink=True)
     return stats
 
@@ -231,14 +334,15 @@ def run(tier, seed):
     t0 = time.time()
     total = 3200 if tier == 'quick' else 80000
     seeds = common.shard_seeds(seed, common.NPROC)
-    plan = ['race'] * 7 + ['c01'] * 3 + ['c05'] * 3 + ['c09'] * 2 + ['reconnect']
+    plan = ['race'] * 7 + ['c01'] * 3 + ['c05'] * 2 + ['c09'] * 2 + ['reconnect', 'awaitable']
     try:
         from harness.checks import c09  # noqa
     except ImportError:
         plan = ['race'] * 10 + ['c01'] * 3 + ['c05'] * 3
     jobs = [dict(tier=tier, seed=0, n=0, which='regression')]
     jobs += [dict(tier=tier, seed=s, n=total // len(plan), which=w) for s, w in zip(seeds, plan)]
-    stats = common.run_shards(__name__, 'shard', jobs)
+    jobs = [('shard', j) for j in jobs] + [('endgame_shard', dict(tier=tier, seed=seed, part=i, parts=16)) for i in range(16)]
+    stats = common.run_shards_multi(__name__, jobs)
     return common.finish(PID, tier, seed, LEVEL, RULE, stats, t0, ASSUMPTIONS)
 
 
